@@ -137,6 +137,15 @@ PROPS = {
             "Go contexts: a derived context is cancelled when its parent is",
         ],
     },
+    "C16": {
+        "lean_modules": ["JrpcProofs.Props.C16", "JrpcProofs.Facts.Reverse", "JrpcProofs.Facts.Corr", "JrpcProofs.Facts.Dispatch"],
+        "assumptions": [
+            "context.WithValue / Value and handler-context derivation are Go's (modelled as: a handler serving connection c sees exactly the value stored for c)",
+            "'gone' means the server noticed the loss (FIN, RST, client close): the server side configures no timeout, so a silent peer is never noticed there (that is C17's territory, client side only)",
+            "dispatch on the client-side handler table (aliases, method tags) is C11/C12's model, tied here by the skeleton of websocketClient and by scenarios",
+        ],
+        "timeout": 1500,
+    },
     "C17": {
         "lean_modules": ["JrpcProofs.Props.C17", "JrpcProofs.Facts.Keepalive", "JrpcProofs.Facts.Corr"],
         "assumptions": [
